@@ -89,10 +89,13 @@ def pcOfCall : Call → PC
   | .clear => .cLoadTail
   | .isEmpty => .eLoadTail
 
+/-- where a thread continues with the given remaining calls -/
+def startPC : List Call → PC
+  | [] => .done
+  | c :: _ => pcOfCall c
+
 def Thread.advance (t : Thread) (r : Res) : Thread :=
-  let rest := t.calls.tail
-  { t with calls := rest, results := t.results ++ [r], acc := [],
-           pc := match rest with | [] => .done | c :: _ => pcOfCall c }
+  { t with calls := t.calls.tail, results := t.results ++ [r], acc := [], pc := startPC t.calls.tail }
 
 def mkThread (calls : List Call) : Thread := { calls, pc := .start, acc := [], results := [] }
 
@@ -115,7 +118,7 @@ def curVal (t : Thread) : Nat := match t.calls with | .push v :: _ => v | _ => 0
 /-- one step of thread `t` (what the code does between two consecutive yield points) -/
 def stepThread (s : Sys) (t : Thread) : Sys × Thread :=
   match t.pc with
-  | .start => (s, { t with pc := match t.calls with | [] => .done | c :: _ => pcOfCall c })
+  | .start => (s, { t with pc := startPC t.calls })
   | .done => (s, t)
   -- ---------------------------------------------------------------- AtomicBucket::push
   | .pLoadTail =>
